@@ -391,7 +391,7 @@ def c05(tier, rng):
                 s.poll(i), s.deliver(M.pubcomp(pid)), s.poll(i)
             s.deliver(M.pingresp()), s.poll(other)
             out.append(case("crosstype-%s-%s" % (kind, wrong), s.script(), ["crosstype"]))
-    return out
+    return out + r6("C05")
 
 
 # ---- C06 ------------------------------------------------------------------------------------------
@@ -515,7 +515,7 @@ def c06(tier, rng):
     c6 = case("blocked-disc", s.script(), ["blocked-writer"])
     c6["model"] = False
     out.append(c6)
-    return out
+    return out + r6("C06")
 
 
 # ---- C07 ------------------------------------------------------------------------------------------
@@ -665,7 +665,7 @@ def c07(tier, rng):
         out.append(walk(rng, rng.choice([30, 60]) if tier == "quick" else rng.choice([60, 250]),
                         {"kinds": ["sub", "sub", "unsub", "pub1", "ping"], "streams": True, "drops": k % 2 == 0},
                         "walk%d" % k))
-    return out
+    return out + r6("C07")
 
 
 # ---- C08 ------------------------------------------------------------------------------------------
@@ -757,7 +757,7 @@ def c08(tier, rng):
         out.append(walk(rng, 40 if tier == "quick" else 150,
                         {"kinds": ["sub", "pub1", "ping"], "streams": True, "inbound": True, "drops": True,
                          "redeliver": True}, "walk%d" % k))
-    return out
+    return out + r6("C08")
 
 
 # ---- C09 ------------------------------------------------------------------------------------------
@@ -870,7 +870,7 @@ def c09(tier, rng):
         for _ in range(9):
             st.ev("pollstream %d" % a)
         out.append(case("inbound-beyond-R%d" % rm, st.script(), ["rm-inbound"]))
-    return out
+    return out + r6("C09")
 
 
 # ---- C10 ------------------------------------------------------------------------------------------
@@ -1031,7 +1031,7 @@ def c10(tier, rng):
         out.append(walk(rng, rng.choice([30, 60]) if tier == "quick" else rng.choice([80, 300]),
                         {"kinds": ["pub0", "pub1", "pub2", "pub1", "pub2", "ping"], "fail": 0.35,
                          "rmax": rng.choice([1, 2, 3, 5])}, "walk%d" % k))
-    return out
+    return out + r6("C10")
 
 
 # ---- C11 ------------------------------------------------------------------------------------------
@@ -1142,7 +1142,7 @@ def c11(tier, rng):
     c = case("subscribes-65600", S().script() + " ; spinsub 65600", ["subid-wrap16"], release=False)
     c["model"] = False
     out.append(c)
-    return out
+    return out + r6("C11")
 
 
 # ---- C12 ------------------------------------------------------------------------------------------
@@ -1197,7 +1197,7 @@ def c12(tier, rng):
                     out.append(case("c%dw" % n, wm + " ; " + s.script(), [kind, "partial-writes"], L=L, M=Mx, kind=kind))
                 n += 1
     out += c12_extra()
-    return out
+    return out + r6("C12")
 
 
 # ---- C13 ------------------------------------------------------------------------------------------
@@ -1478,7 +1478,7 @@ def c13(tier, rng):
         s = mk()
         s.deliver(M.pingresp()), s.deliver(M.puback(77)), s.deliver(M.publish(b"z", b"z"))
         out.append(case("nocause-" + name, s.script(), ["nocause"]))
-    return out
+    return out + r6("C13")
 
 
 # ---- C14 ------------------------------------------------------------------------------------------
@@ -1568,7 +1568,7 @@ def c14(tier, rng):
     for k in range(n_cases(tier, 80, 2000)):
         out.append(walk(rng, rng.choice([10, 25, 50]) if tier == "quick" else rng.choice([20, 60, 200]),
                         {"streams": True, "hold": True, "dropctx_at_end": True, "fail": 0.1}, "walk%d" % k))
-    return out
+    return out + r6("C14")
 
 
 # ---- C15 ------------------------------------------------------------------------------------------
@@ -1740,7 +1740,7 @@ def c15(tier, rng):
         out.append(walk(rng, rng.choice([20, 50]) if tier == "quick" else rng.choice([50, 200]),
                         {"drops": True, "streams": True, "hold": k % 2 == 0, "fail": 0.2,
                          "rmax": rng.choice([None, 2, 4]), "no_k2": True}, "walk%d" % k))
-    return out
+    return out + r6("C15")
 
 
 # ---- C16 ------------------------------------------------------------------------------------------
@@ -1830,7 +1830,7 @@ def c16(tier, rng):
         # wmode must come first so that CONNECT is written under it
         script = " ; ".join(new)
         out.append(case("walk%d-m%d" % (k, mode), script, c["tags"] + ["mode%d" % mode]))
-    return out
+    return out + r6("C16")
 
 
 # ---- C17 ------------------------------------------------------------------------------------------
@@ -2030,4 +2030,336 @@ def c17(tier, rng):
         for i in (a, b2, c3):
             s.poll(i)
         out.append(case("resume-under-R%d" % rm2, s.script(), ["resume-rm"]))
+    return out + r6("C17")
+
+
+# ---- round 6 --------------------------------------------------------------------------------------------------------------
+UPDUP = [(38, (b"acl", b"deny")), (38, (b"node", b"7")), (38, (b"acl", b"deny")), (38, (b"acl", b"allow")), (38, (b"node", b"7"))]
+PUBREC_FAIL = [128, 131, 135, 144, 145, 151, 153]
+
+
+def r6(pid):
+    out = []
+    if pid == "C05":
+        # acknowledgements carrying the same name-value pair twice and a name repeated around another one, out of order,
+        # each reaching its own operation with all of it
+        st = S()
+        a, b_, c_, d_ = st.sub(b"f", extra="f=67:0100"), st.unsub(b"u"), st.pub(q=1), st.pub(q=2)
+        for i in (a, b_, c_, d_):
+            st.poll(i)
+        st.deliver(M.pubrec(st.ops[d_]["pid"], 145, UPDUP + [(31, b"d")], "long")), st.deliver(M.unsuback(st.ops[b_]["pid"], [17], UPDUP[:3]))
+        st.deliver(M.puback(st.ops[c_]["pid"], 135, UPDUP[1:] + [(31, b"c")], "long")), st.deliver(M.suback(st.ops[a]["pid"], [1, 128], UPDUP))
+        for i in (a, b_, c_, d_):
+            st.poll(i)
+        out.append(case("repeated-user-properties-out-of-order", st.script(), ["upsx"]))
+        # every failing PUBREC reason, three QoS 2 publishes from clones, the middle one refused
+        for r in PUBREC_FAIL + [0, 16]:
+            st = S()
+            st.ev("clone 0 1"), st.ev("clone 0 2")
+            x = [st.pub(q=2, payload=b"m%d" % k, handle=k) for k in range(3)]
+            for i in x:
+                st.poll(i)
+            st.deliver(M.pubrec(2, r, [(31, b"why")] if r >= 128 else (), "long" if r >= 128 else "auto"))
+            for i in x:
+                st.poll(i)
+            st.deliver(M.pubrec(1)), st.deliver(M.pubrec(3)), [st.poll(i) for i in x]
+            st.deliver(M.pubcomp(3)), st.deliver(M.pubcomp(1)), st.deliver(M.pubcomp(2, 146) if r < 128 else M.pingresp())
+            [st.poll(i) for i in x]
+            out.append(case("pubrec-sweep-middle-%d" % r, st.script(), ["pubrec-sweep"]))
+    if pid == "C06":
+        # a publish abandoned at each point of its handshake; the late acknowledgement arrives; the others go on
+        for q, point in ((1, "wait"), (2, "wait1"), (2, "wait2")):
+            for r in (0, 135):
+                st = S()
+                sib1, x, sib2 = st.pub(q=1, payload=b"s1"), st.pub(q=q, payload=b"gone"), st.pub(q=2, payload=b"s2")
+                for i in (sib1, x, sib2):
+                    st.poll(i)
+                px = st.ops[x]["pid"]
+                if point == "wait2":
+                    st.deliver(M.pubrec(px)), st.poll(x)
+                st.ev("dropop %d" % x)
+                if q == 1:
+                    st.deliver(M.puback(px, r))
+                elif point == "wait1":
+                    st.deliver(M.pubrec(px, r))
+                else:
+                    st.deliver(M.pubcomp(px, 146 if r else 0))
+                st.deliver(M.puback(st.ops[sib1]["pid"], 16)), st.deliver(M.pubrec(st.ops[sib2]["pid"]))
+                st.poll(sib1), st.poll(sib2), st.deliver(M.pubcomp(st.ops[sib2]["pid"])), st.poll(sib2)
+                y = st.pub(q=1, payload=b"later")
+                st.poll(y), st.deliver(M.puback(st.ops[y]["pid"])), st.poll(y)
+                out.append(case("abandoned-q%d-%s-r%d" % (q, point, r), st.script(), ["abandoned"]))
+        for r in PUBREC_FAIL:
+            for form in ("auto", "long"):
+                st = S()
+                x = st.pub(q=2, payload=b"refused")
+                st.poll(x), st.deliver(M.pubrec(1, r, [(31, b"no")] if form == "long" else (), form)), st.poll(x), st.poll(x)
+                y = st.pub(q=2, payload=b"next")
+                st.poll(y), st.deliver(M.pubrec(2)), st.poll(y), st.deliver(M.pubcomp(2)), st.poll(y)
+                out.append(case("failing-pubrec-%d-%s" % (r, form), st.script(), ["pubrec-sweep"]))
+    if pid == "C08":
+        # one poll_write failing with ErrorKind::Interrupted after the transport accepted k bytes of what is owed: run() ends
+        # (write_all does not retry) or carries on - never a byte twice
+        for what, pk in (("puback", M.publish(b"t", b"x", 1, 5)), ("pubrec", M.publish(b"t", b"y", 2, 6)), ("pubcomp", M.pubrel(7))):
+            for k in range(0, 5):
+                st = S()
+                st.ev("wintr %d" % k), st.deliver(pk), st.deliver(M.publish(b"t", b"z", 1, 9)), st.deliver(M.pingresp())
+                out.append(case("wintr-%s-%d" % (what, k), st.script(), ["wintr"]))
+        st = S()
+        st.deliver(M.publish(b"t", b"a", 1, 1)), st.ev("wintr 6"), st.deliver(M.publish(b"t", b"b", 1, 2) + M.publish(b"t", b"c", 2, 3) + M.pubrel(3))
+        out.append(case("wintr-second-ack", st.script(), ["wintr"]))
+        # PUBREL for identifiers that are not (or no longer) recorded, several in a row, acknowledgements owed after them
+        st = S()
+        st.deliver(M.pubrel(7)), st.deliver(M.publish(b"t", b"q2", 2, 8)), st.deliver(M.pubrel(8)), st.deliver(M.pubrel(8)), st.deliver(M.pubrel(8, 146, (), "short3"))
+        st.deliver(M.publish(b"t", b"q1", 1, 9)), st.deliver(M.pubrel(1) + M.publish(b"t", b"q2b", 2, 8) + M.pubrel(8))
+        out.append(case("pubrel-unknown-identifiers", st.script(), ["pubrel-unknown"]))
+    if pid == "C09":
+        # the two directions number their exchanges independently: the client's own QoS 2 publish completing under the number
+        # an inbound exchange is using changes nothing for the inbound one
+        for when in ("before-pubrec-out", "after-pubcomp-out"):
+            st = S()
+            a = st.sub(b"a")
+            st.poll(a), st.deliver(M.suback(1)), st.poll(a), st.ev("tostream %d" % a)
+            o = st.pub(q=2, payload=b"outbound")          # packet identifier 2
+            st.poll(o)
+            st.deliver(M.publish(b"a", b"m1", 2, 2, ps=[(11, 1)]))          # inbound identifier 2 as well
+            st.deliver(M.pubrec(2)), st.poll(o)
+            if when == "after-pubcomp-out":
+                st.deliver(M.pubcomp(2)), st.poll(o)
+            st.deliver(M.publish(b"a", b"m1", 2, 2, 1, ps=[(11, 1)]))       # re-delivery
+            if when != "after-pubcomp-out":
+                st.deliver(M.pubcomp(2)), st.poll(o)
+                st.deliver(M.publish(b"a", b"m1", 2, 2, 1, ps=[(11, 1)]))
+            st.deliver(M.pubrel(2)), st.deliver(M.publish(b"a", b"m2", 2, 2, ps=[(11, 1)])), st.deliver(M.pubrel(2))
+            for _ in range(4):
+                st.ev("pollstream %d" % a)
+            out.append(case("crossed-identifiers-%s" % when, st.script(), ["crossed"]))
+        # after a re-delivery the broker goes on as the standard says: PUBREL, and the identifier is used for a new message
+        st = S()
+        a = st.sub(b"a")
+        st.poll(a), st.deliver(M.suback(1)), st.poll(a), st.ev("tostream %d" % a)
+        st.deliver(M.publish(b"a", b"first", 2, 5, ps=[(11, 1)])), st.deliver(M.publish(b"a", b"first", 2, 5, 1, ps=[(11, 1)]))
+        st.deliver(M.pubrel(5)), st.deliver(M.publish(b"a", b"second", 2, 5, ps=[(11, 1)])), st.deliver(M.pubrel(5))
+        for _ in range(3):
+            st.ev("pollstream %d" % a)
+        out.append(case("redelivery-then-release-then-reuse", st.script(), ["crossed"]))
+    if pid == "C10":
+        # what the CLIENT announces as its own Receive Maximum concerns inbound traffic only
+        for own, srv in ((1, None), (2, 5), (3, 3), (10, 2), (1, 65535)):
+            st = S(connack_props=[(33, srv)] if srv else (), connect_opts="rm=%d" % own)
+            R = srv or 65535
+            n = min(R, 7) + 1
+            x = [st.pub(q=1 + k % 2, payload=b"w%d" % k) for k in range(n)]
+            for i in x:
+                st.poll(i)
+            for i in x:
+                st.poll(i)
+            for i in x[:2]:
+                if st.ops[i]["pid"] and st.ops[i]["state"] != "refused":
+                    st.deliver(M.puback(st.ops[i]["pid"]) if st.ops[i]["q"] == 1 else M.pubrec(st.ops[i]["pid"], 151)), st.poll(i), st.freed()
+            y = [st.pub(q=1, payload=b"again%d" % k) for k in range(3)]
+            for i in y:
+                st.poll(i), st.poll(i)
+            out.append(case("own-receive-maximum-%d-server-%s" % (own, srv), st.script(), ["own-rm"]))
+        for r in PUBREC_FAIL:
+            for R in (1, 2):
+                st = S(connack_props=[(33, R)])
+                x = [st.pub(q=2, payload=b"w%d" % k) for k in range(R + 1)]
+                for i in x:
+                    st.poll(i), st.poll(i)
+                st.deliver(M.pubrec(1, r)), st.freed()            # not polled: the context alone releases the slot
+                y = st.pub(q=1, payload=b"after")
+                st.poll(y), st.poll(y)
+                z = st.pub(q=1, payload=b"beyond")
+                st.poll(z), st.poll(z), st.poll(x[0])
+                out.append(case("failing-pubrec-releases-%d-R%d" % (r, R), st.script(), ["pubrec-sweep"]))
+    if pid == "C11":
+        # publishes that carry no identifier use none up: three operations outstanding while 70000 QoS 0 publishes and 15020
+        # identifier-consuming operations go by
+        st = S()
+        keep = [st.pub(q=1, payload=b"keep"), st.sub(b"keep"), st.unsub(b"keep")]
+        for i in keep:
+            st.poll(i)
+        st.ev("pub0s 35000"), st.ev("spin 15000 200000 pub1 1"), st.ev("pub0s 15530"), st.ev("spin 10 400000 unsub 1"), st.ev("pub0s 19470"), st.ev("spin 10 500000 pub2 1")
+        st.pid_ctr = 4 + 15020
+        z = st.pub(q=1, payload=b"z")
+        st.poll(z)
+        out.append(case("qos0-uses-no-identifier", st.script(), ["qos0-ids"], release=False))
+        # an operation refused locally has used its identifier up: nobody else gets it while others hold theirs
+        st = S(connack_props=[(33, 1)])
+        st.ev("clone 0 1"), st.ev("clone 0 2")
+        a = st.pub(q=1, payload=b"A")
+        st.poll(a)
+        c_, d_ = st.pub(q=1, payload=b"C", handle=1), st.sub(b"d", handle=2)
+        st.poll(c_), st.poll(d_), st.poll(c_), st.poll(c_)
+        e_ = st.unsub(b"e")
+        st.poll(e_)
+        f_ = st.pub(q=2, payload=b"F", handle=1)
+        st.poll(f_), st.poll(f_)
+        g_ = st.sub(b"g")
+        st.poll(g_)
+        out.append(case("refused-publish-keeps-its-identifier", st.script(), ["refused-ids"]))
+    if pid == "C12":
+        # the limit the CLIENT announces for what it is willing to receive never limits what it sends
+        for own in (20, 32, 100):
+            for srv in (None, 200):
+                st = S(connack_props=[(39, srv)] if srv else (), connect_opts="mps=%d" % own)
+                x = [st.pub(q=0, topic=b"t" * 40, payload=b"p" * 60), st.pub(q=1, topic=b"t" * 40, payload=b"p" * 60), st.sub(b"f" * 100),
+                     st.unsub(b"u" * 100), st.pub(q=2, topic=b"t" * 10, payload=b"p" * 250)]
+                for i in x:
+                    st.poll(i), st.poll(i)
+                d_ = st.disc("r=0 rs=%s" % hx(b"r" * 100))
+                st.poll(d_), st.poll(d_)
+                out.append(case("own-maximum-packet-size-%d-server-%s" % (own, srv), st.script(), ["own-mps"]))
+        # too big AND no quota left: too big (it can never be sent on this connection)
+        for q in (1, 2):
+            st = S(connack_props=[(39, 40), (33, 1)])
+            a = st.pub(q=q, payload=b"fits")
+            st.poll(a)
+            big = st.pub(q=q, topic=b"t", payload=b"p" * 60)
+            st.poll(big), st.poll(big)
+            exact = st.pub(q=q, topic=b"t", payload=b"p" * (40 - 9))
+            st.poll(exact), st.poll(exact)
+            st.deliver(M.puback(1) if q == 1 else M.pubrec(1, 128)), st.poll(a), st.freed()
+            big2 = st.pub(q=q, topic=b"t", payload=b"p" * 60)
+            st.poll(big2), st.poll(big2)
+            ok = st.pub(q=q, topic=b"t", payload=b"p" * (40 - 9))
+            st.poll(ok), st.poll(ok)
+            out.append(case("too-big-and-no-quota-q%d" % q, st.script(), ["size-vs-quota"]))
+    if pid == "C13":
+        # the library does not close the transport; whatever poll_close would do is irrelevant to run()
+        for cf in (1, 2):
+            for state in ("idle", "busy"):
+                st = S()
+                st.ev("cfault %d" % cf)
+                if state == "busy":
+                    a = st.pub(q=2)
+                    st.poll(a)
+                d_ = st.disc("r=4")
+                st.poll(d_), st.poll(d_)
+                out.append(case("userdisc-closefault-%d-%s" % (cf, state), st.script(), ["close-fault"]))
+        # a re-delivered QoS 2 PUBLISH is no reason to return
+        for n_ in (1, 3):
+            st = S()
+            a = st.sub(b"a")
+            st.poll(a), st.deliver(M.suback(1)), st.poll(a), st.ev("tostream %d" % a)
+            st.deliver(M.publish(b"a", b"m", 2, 7, ps=[(11, 1)]))
+            for _ in range(n_):
+                st.deliver(M.publish(b"a", b"m", 2, 7, 1, ps=[(11, 1)]))
+            g = st.ping()
+            st.poll(g), st.deliver(M.pingresp()), st.poll(g), st.deliver(M.pubrel(7)), st.ev("pollstream %d" % a), st.ev("pollstream %d" % a)
+            st.deliver(M.disconnect(139, [(31, b"bye")], "long"))
+            out.append(case("srvdisc-redelivered%d-r139" % n_, st.script(), ["redelivery"]))
+    if pid == "C14":
+        # every operation kind in every phase when the Context goes, and every kind started afterwards (disconnect included)
+        st = S()
+        a = st.sub(b"a")
+        st.poll(a), st.deliver(M.suback(1)), st.poll(a), st.ev("tostream %d" % a)
+        p2 = st.pub(q=2, payload=b"past-pubrec")
+        st.poll(p2), st.deliver(M.pubrec(st.ops[p2]["pid"])), st.poll(p2)
+        p2b = st.pub(q=2, payload=b"pubrec-unseen")
+        st.poll(p2b), st.deliver(M.pubrec(st.ops[p2b]["pid"]))
+        st.deliver(M.publish(b"a", b"acknowledged-not-released", 2, 9, ps=[(11, 1)]))
+        st.ev("dropctx")
+        for i in (p2, p2b):
+            st.poll(i), st.poll(i)
+        for _ in range(3):
+            st.ev("pollstream %d" % a)
+        later = [st.disc("r=0"), st.ping(), st.pub(q=0), st.pub(q=1), st.pub(q=2), st.sub(b"z"), st.unsub(b"z"), st.disc("r=4")]
+        for i in later:
+            st.poll(i), st.poll(i)
+        out.append(case("dropctx-mid-qos2-both-directions", st.script(), ["dropctx6"]))
+        st = S()
+        st.ev("clone 0 1")
+        st.deliver(M.disconnect(139)), st.ev("dropctx")
+        for h in (0, 1):
+            d_ = st.disc("r=0", handle=h)
+            st.poll(d_), st.poll(d_)
+        out.append(case("disconnect-after-context-gone", st.script(), ["dropctx6"]))
+    if pid == "C15":
+        # pings: the PINGRESP owed to an abandoned ping is not the answer to a later one
+        for n_drop in (1, 2):
+            st = S()
+            st.ev("clone 0 1")
+            gone = [st.ping() for _ in range(n_drop)]
+            for i in gone:
+                st.poll(i)
+            live = [st.ping(handle=1), st.ping()]
+            for i in live:
+                st.poll(i)
+            for i in gone:
+                st.ev("dropop %d" % i)
+            for k in range(n_drop):
+                st.deliver(M.pingresp())
+                for i in live:
+                    st.poll(i)
+            st.deliver(M.pingresp()), [st.poll(i) for i in live], st.deliver(M.pingresp()), [st.poll(i) for i in live]
+            out.append(case("abandoned-ping-%d" % n_drop, st.script(), ["abandoned", "ping"]))
+        # a QoS 2 publish abandoned before its PUBREC: whatever the PUBREC says, nothing goes out for it
+        for r in (128, 145, 151):
+            st = S(connack_props=[(33, 2)])
+            other = st.pub(q=1, payload=b"other")
+            st.poll(other)
+            x = st.pub(q=2, payload=b"gone")
+            st.poll(x), st.ev("dropop %d" % x)
+            st.deliver(M.pubrec(2, r)), st.freed()
+            y = [st.pub(q=1, payload=b"y%d" % k) for k in range(2)]
+            for i in y:
+                st.poll(i), st.poll(i)
+            st.deliver(M.puback(1)), st.poll(other)
+            out.append(case("abandoned-qos2-pubrec-%d" % r, st.script(), ["abandoned", "pubrec"]))
+    if pid == "C16":
+        # operations outstanding when run() returns: whoever polls them, whenever, sees the same
+        for cause in ("eof", "disconnect", "user"):
+            for npings in (1, 2):
+                for extra in ("none", "sweep", "fpoll-first", "fpoll-before"):
+                    st = S()
+                    st.ev("clone 0 1")
+                    pg = [st.ping(handle=k % 2) for k in range(npings)]
+                    pb = st.pub(q=1)
+                    for i in pg + [pb]:
+                        st.poll(i)
+                    if extra == "fpoll-before":
+                        st.ev("fpoll %d" % pg[0])
+                    if cause == "eof":
+                        st.ev("eof")
+                    elif cause == "disconnect":
+                        st.deliver(M.disconnect(139))
+                    else:
+                        d_ = st.disc("r=0", handle=1)
+                        st.poll(d_), st.poll(d_)
+                    if extra == "sweep":
+                        st.ev("sweep")
+                    if extra == "fpoll-first":
+                        st.ev("fpoll %d" % pg[0])
+                    for i in pg + [pb]:
+                        st.poll(i)
+                    st.ev("sweep")
+                    out.append(case("outstanding-at-exit-%s-%d-%s" % (cause, npings, extra), st.script(), ["at-exit"]))
+    if pid == "C17":
+        # Session Expiry Intervals of months and years, disconnections of weeks
+        DAY = 86400
+        for sei, elapsed, label in ((60 * DAY, 55 * DAY, "60d-55d"), (365 * DAY, 61 * DAY, "1y-61d"), (4294967294, 400 * DAY, "max-400d"),
+                                    (60 * DAY, 60 * DAY + 1, "60d-over"), (4294967, 4294966, "49d-under"), (4294968, 4294967, "49d-edge"),
+                                    (4294968, 4294969, "49d-over"), (50 * DAY, 49 * DAY + 61000, "50d-49.7d")):
+            st = S(connect_opts="sei=%d" % sei)
+            a, b_ = st.pub(q=1, payload=b"A"), st.pub(q=2, payload=b"B")
+            st.poll(a), st.poll(b_), st.deliver(M.pubrec(2)), st.poll(b_)
+            st.ev("markdisc %d" % elapsed), st.ev("reconnect"), st.ev("connect sei=%d" % sei), st.deliver(M.connack(1)), st.ev("run")
+            st.poll(a), st.poll(b_), st.deliver(M.puback(1)), st.deliver(M.pubcomp(2)), st.poll(a), st.poll(b_)
+            out.append(case("long-session-%s" % label, st.script(), ["long-session"]))
+        # an expired resumption is over when run() has dealt with it: calling run() again on the new connection is harmless
+        for sei in (0, 100):
+            st = S(connect_opts=("sei=%d" % sei) if sei else "")
+            a = st.pub(q=1, payload=b"old")
+            st.poll(a)
+            st.ev("markdisc 5000"), st.ev("reconnect"), st.ev(("connect sei=1000")), st.deliver(M.connack(0)), st.ev("run")
+            st.poll(a)
+            b_, c_ = st.pub(q=1, payload=b"new1"), st.pub(q=2, payload=b"new2")
+            st.poll(b_), st.poll(c_), st.deliver(M.pubrec(st.ops[c_]["pid"])), st.poll(c_)
+            st.ev("run")
+            st.poll(b_), st.poll(c_), st.deliver(M.pingresp()), st.ev("run")
+            st.ev("markdisc 10"), st.ev("reconnect"), st.ev("connect sei=1000"), st.deliver(M.connack(1)), st.ev("run")
+            st.deliver(M.puback(st.ops[b_]["pid"])), st.deliver(M.pubcomp(st.ops[c_]["pid"])), st.poll(b_), st.poll(c_)
+            out.append(case("expired-then-run-again-%d" % sei, st.script(), ["run-again-expired"]))
     return out
